@@ -367,12 +367,16 @@ func (cl *Cluster) wire(st *Stack) error {
 	st.Prop = consensus.NewProposer(st.EL, st.Cfg, st.BC, st.VS, rs, cq, st.Voter, st.Cache, cm)
 	st.Synch = synchronizer.New(st.EL, lg, st.Cfg, st.Auth, lr, synchronizer.NewFixedDuration(1000*time.Hour),
 		synchronizer.NewTimeoutRuler(st.Cfg, st.Auth), st.Prop, st.Voter, st.VS, snd)
-	// C06 monitor, part 1 (runs BEFORE ClientIO handles the batch): remember the application digest state
-	eventloop.Register(st.EL, func(e clientpb.ExecuteEvent) {
+	// C06 monitor, part 1 (runs BEFORE ClientIO handles the batch): remember the application digest state. ClientIO may
+	// execute a batch when the event is added or when it is taken off the queue; both moments are observed, and the one
+	// at which the digest moves is the execution.
+	snap := func(e clientpb.ExecuteEvent) {
 		if m, ok := st.CIO.Hash().(encoding.BinaryMarshaler); ok {
 			st.preHash, _ = m.MarshalBinary()
 		}
-	}, eventloop.Prioritize())
+	}
+	eventloop.Register(st.EL, snap, eventloop.Prioritize(), eventloop.UnsafeRunInAddEvent())
+	eventloop.Register(st.EL, snap, eventloop.Prioritize())
 	st.CIO = server.NewClientIO(st.EL, lg, st.Cache)
 	var sopts []server.ServerOption
 	if cl.Cfg.Latency {
@@ -384,9 +388,13 @@ func (cl *Cluster) wire(st *Stack) error {
 	}
 	st.Srv = server.NewServer(st.EL, lg, st.Cfg, st.BC, sopts...)
 	// part 2 (registered after ClientIO's own handler, so it runs after it): which commands of the batch were applied?
+	eventloop.Register(st.EL, func(e clientpb.ExecuteEvent) { st.recoverApplied(e.Batch) }, eventloop.UnsafeRunInAddEvent())
 	eventloop.Register(st.EL, func(e clientpb.ExecuteEvent) { st.recoverApplied(e.Batch) })
-	eventloop.Register(st.EL, func(c hotstuff.CommitEvent) { st.Commits = append(st.Commits, c.Block) })
-	eventloop.Register(st.EL, func(e hotstuff.ViewChangeEvent) { st.ViewChanges = append(st.ViewChanges, e) })
+	// the replica's decisions are observed where they are made (when the event is added): the queue between the components
+	// is bounded and drops its oldest entries when full, which is the queue's documented behaviour and not what these
+	// monitors are about
+	eventloop.Register(st.EL, func(c hotstuff.CommitEvent) { st.Commits = append(st.Commits, c.Block) }, eventloop.UnsafeRunInAddEvent())
+	eventloop.Register(st.EL, func(e hotstuff.ViewChangeEvent) { st.ViewChanges = append(st.ViewChanges, e) }, eventloop.UnsafeRunInAddEvent())
 	eventloop.Register(st.EL, func(e clientpb.ExecuteEvent) { st.Execs = append(st.Execs, e.Batch) })
 	eventloop.Register(st.EL, func(e clientpb.AbortEvent) { st.Aborts = append(st.Aborts, e.Batch) })
 	return nil
